@@ -80,6 +80,24 @@ Theorem sync_collection_equals_local_merge_exact :
                    (others i n (map (pseudo (fst km)) (ideal_gath n Wg order iv tl)) []))) (mcs i))) (seq 0 n)).
 Proof. exact ToolkitP.sync_collection_equals_local_merge_exact. Qed.
 
+(* structural form for a single metric: the ranks hold the same sorted state names (distinct) and
+   under every name states of the same kind satisfying the hypotheses of C15 ([kind_ok]: tensors of
+   equal ndim/dtype, well formed; objects; lists of such tensors, not all empty, empty ones only on
+   the world group; dicts with equal non-empty key sets).  [state_iv sds (TMP,s) j] = the ideal
+   gathered value of rank j's state s (tensor / list / sorted dict / object as it is). *)
+Theorem sync_equals_local_merge_structural :
+  forall (M : Type) (sd : M -> sdict) (mrg : M -> list pseudo_t -> M)
+         (g : list nat) (Wg : nat) (ms : nat -> M) (names : list string),
+    let n := List.length g in
+    n > 1 -> n <= Wg -> NoDup names ->
+    (forall i, i < n -> map fst (sort_keys (sd (ms i))) = names) ->
+    (forall s, In s names -> exists ss, (forall i, i < n -> assoc s (sd (ms i)) = Some (ss i)) /\ kind_ok g ss) ->
+    run_all (respond g) (map (fun i => get_synced_metric M sd mrg n i Wg (ms i)) (seq 0 n))
+    = Some (map (fun i => Ok (mrg (ms i)
+               (map (fun j => map (fun s => (s, state_iv (fun i => sd (ms i)) (TMP, s) j)) names)
+                    (filter (fun r => negb (Nat.eqb r i)) (seq 0 n))))) (seq 0 n)).
+Proof. exact ToolkitP.sync_equals_local_merge_structural. Qed.
+
 Theorem sync_and_compute_equals_local_merge :
   forall (M Out : Type) (sd : M -> sdict) (mrg : M -> list pseudo_t -> M) (cmp : M -> Out)
          (g : list nat) (Wg : nat) (ms : nat -> M) order iv tl,
@@ -117,6 +135,20 @@ Proof.
         intros i Hi. destruct i as [|[|[|i]]]; try (cbn in Hi; lia); repeat split; cbn; auto.
 Qed.
 
+Example structural_hypotheses_example :
+  (forall i, i < 3 -> map fst (sort_keys (base (ex_m i))) = ["o"; "t"]) /\
+  (forall s, In s ["o"; "t"] -> exists ss, (forall i, i < 3 -> assoc s (base (ex_m i)) = Some (ss i)) /\
+                                          kind_ok [0;1;2] ss).
+Proof.
+  split; [intros i _; reflexivity|].
+  intros s [<-|[<-|[]]].
+  - exists (fun i => SObj (VZ (Z.of_nat i))). split; [intros i _; reflexivity|].
+    right; left. exists (fun i => VZ (Z.of_nat i)). intros; reflexivity.
+  - exists (fun i => STensor (ex_ts i)). split; [intros i _; reflexivity|].
+    left. exists ex_ts, 2, 0%Z. intros i Hi. split; [reflexivity|].
+    destruct i as [|[|[|i]]]; try (cbn in Hi; lia); repeat split; cbn; auto.
+Qed.
+
 Example sync_three_ranks_example :
   let ps (j : nat) : pseudo_t := [("o", GO (VZ (Z.of_nat j))); ("t", GT (ex_ts j))] in
   run_all (respond [0;1;2]) (map (fun i => get_synced_metric mobj base mobj_mrg 3 i 3 (ex_m i)) (seq 0 3))
@@ -152,6 +184,7 @@ Print Assumptions sync_equals_local_merge.
 Print Assumptions sync_collection_equals_local_merge.
 Print Assumptions sync_equals_local_merge_exact.
 Print Assumptions sync_collection_equals_local_merge_exact.
+Print Assumptions sync_equals_local_merge_structural.
 Print Assumptions sync_and_compute_equals_local_merge.
 Print Assumptions sync_refuted_ndim.
 Print Assumptions sync_refuted_subgroup_root.
